@@ -203,6 +203,77 @@ example : setSpec.body.gen.ctors = [s2b "Set"] ∧
     setSpec.body.gen.tail.fmts = [.setNotSupported, .setNotSupported] := by
   refine ⟨rfl, by decide, by decide⟩
 
+/-! ## the conflict rules of the option-scan commands, exactly -/
+
+/-- SET: once the options have been scanned (`s`), the command is refused exactly when a rule of `setChecks`
+    fires — NX with XX, or KEEPTTL with EX / PX / EXAT / PXAT — with the text of the first rule that does; no
+    other combination of options is a conflict (SET … EX … PX …, SET … NX GET, … are accepted) -/
+theorem conflict_rules_exact_set {name : Bytes} (hn : kw name = s2b "SET") (k v : Bytes) (opts : List Bytes) (s : Seen)
+    (hs : scanOpts Bodies.setOpts (fun _ => some (.lit .syntax)) opts = .ok s) :
+    parseCmd (name :: k :: v :: opts) =
+      (match firstFiring s Desc.setChecks with
+       | some l => .error (.body (.lit l))
+       | none => .ok (Bodies.mkSet (.s (lossy k)) (.d v) (s.opt1 3) (s.opt1 4) (s.opt1 5) (s.opt1 6)
+                  (s.has 0) (s.has 1) (s.has 2) (s.has 7))) := by
+  rw [parse_set hn, Shape.set]
+  simp only [runGen, Desc.set, Arity.ok, List.length_cons, takeSlots, takeOpt, Tail.run, bind, Except.bind, pure, Except.pure,
+    Shape.extract_str, Shape.extract_sds, List.append_nil]
+  have hu : Unk.fn (.lit .syntax) = fun _ => some (BErr.lit .syntax) := rfl
+  have hd : decide (2 ≤ opts.length + 1 + 1) = true := by simp
+  rw [hu, hs]
+  simp only [hd, finWithChecks]
+  cases firstFiring s Desc.setChecks <;> rfl
+
+/-- EXPIRE / PEXPIRE: refused exactly when NX comes with XX, GT or LT, or GT with LT -/
+theorem conflict_rules_exact_expire {name : Bytes} (hn : kw name = s2b "EXPIRE") (k n : Bytes) (i : Int)
+    (hi : parseI64 n = some i) (opts : List Bytes) (s : Seen)
+    (hs : scanOpts Bodies.expireOpts (fun w => some (.fmt .unsupportedOption w)) opts = .ok s) :
+    parseCmd (name :: k :: n :: opts) =
+      (match firstFiring s Desc.expireChecks with
+       | some l => .error (.body (.lit l))
+       | none => .ok ⟨s2b "Expire", [.s (lossy k), .i i, .b (s.has 0), .b (s.has 1), .b (s.has 2), .b (s.has 3)]⟩) := by
+  rw [parse_expire hn, Shape.expire]
+  simp only [runGen, Desc.expire, Arity.ok, List.length_cons, takeSlots, takeOpt, Tail.run, bind, Except.bind, pure, Except.pure,
+    Shape.extract_str, List.append_nil]
+  have hx : aInt.extract n = .ok (.i i) := by simp [aInt, Arg.extract, hi]
+  have hu : Unk.fn (.fmt .unsupportedOption) = fun w => some (BErr.fmt .unsupportedOption w) := rfl
+  have hd : decide (2 ≤ opts.length + 1 + 1) = true := by simp
+  rw [hx, hu]
+  simp only [hs, hd, finWithChecks]
+  cases firstFiring s Desc.expireChecks <;> rfl
+
+/-- GETEX: refused exactly when more than one of EX / PX / EXAT / PXAT / PERSIST is given -/
+theorem conflict_rules_exact_getex {name : Bytes} (hn : kw name = s2b "GETEX") (k : Bytes) (opts : List Bytes) (s : Seen)
+    (hs : scanOpts Bodies.getexOpts (fun _ => some (.lit .syntax)) opts = .ok s) :
+    parseCmd (name :: k :: opts) =
+      (match firstFiring s Desc.getexChecks with
+       | some l => .error (.body (.lit l))
+       | none => .ok ⟨s2b "GetEx", [.s (lossy k), s.opt1 0, s.opt1 1, s.opt1 2, s.opt1 3, .b (s.has 4)]⟩) := by
+  rw [parse_getex hn, Shape.getex]
+  simp only [runGen, Desc.getex, Arity.ok, List.length_cons, takeSlots, takeOpt, Tail.run, bind, Except.bind, pure, Except.pure,
+    Shape.extract_str, List.append_nil]
+  have hu : Unk.fn (.lit .syntax) = fun _ => some (BErr.lit .syntax) := rfl
+  have hd : decide (1 ≤ opts.length + 1) = true := by simp
+  rw [hu, hs]
+  simp only [hd, finWithChecks]
+  cases firstFiring s Desc.getexChecks <;> rfl
+
+/-- every entry's declared conflict rules are what its finishing function tests (the `checks` column of the
+    shape table) -/
+theorem table_checks_ok (b : Body) : ChecksOk b.gen := by
+  cases b with
+  | custom cb => exact cb.checks_ok
+  | const c => rfl
+  | fixed c sl => rfl
+  | many c p e => rfl
+  | pairs c p a b' => rfl
+
+/-- non-vacuity: `NX GET XX` fires the first rule, `KEEPTTL EX 5` the second, `EX 1 PX 2` none -/
+example : firstFiring [(0, []), (2, []), (1, [])] Desc.setChecks = some .nxxx ∧
+    firstFiring [(7, []), (3, [.i 5])] Desc.setChecks = some .syntax ∧
+    firstFiring [(3, [.i 1]), (4, [.i 2])] Desc.setChecks = none ∧
+    firstFiring [(4, []), (0, [.i 1])] Desc.getexChecks = some .syntax := by decide
+
 /-- non-vacuity: the row of SET is found, its descriptor has two leading slots and a ten-entry option
     table, and the generic body answers what the grammar answers -/
 example : findEntry table (kw (s2b "set")) = some (.cmd setSpec) ∧
